@@ -32,7 +32,7 @@ def parse_case(line):
     ns = int(t[1])
     cfgs = [tuple(int(x) for x in t[2 + 6 * k: 8 + 6 * k]) for k in range(ns)]
     i = 2 + 6 * ns
-    ar = {"A": 1, "W": 1, "S": 6, "T": 0, "K": 2, "P": 3, "R": 2, "N": 4, "D": 2, "I": 1, "Q": 0}
+    ar = {"A": 1, "W": 1, "S": 6, "T": 0, "K": 2, "P": 3, "R": 2, "N": 4, "D": 2, "I": 1, "X": 2, "Q": 0}
     ev = []
     while i < len(t):
         n = ar.get(t[i])
@@ -336,7 +336,7 @@ def impl_oracle(line, out):
                     if r["T"] is not None and r["tx"][-1] + (r["T"] << (len(r["tx"]) - 1)) <= now:
                         problems.append("coap_io_process left mid %d behind although it was due" % r["mid"])
             continue
-        if k in ("S", "K", "P", "R", "N") and int(e[1]) % ns in dead:
+        if k in ("S", "K", "P", "R", "N", "X") and int(e[1]) % ns in dead:
             if its:
                 problems.append("event on a disconnected session produced %s" % [i[1] for i in its])
             continue
@@ -403,14 +403,16 @@ def impl_oracle(line, out):
             l = live.get((s, mid), [])
             if k == "K" and any(is_request(r["code"]) for r in l):
                 relaxed = True
-            if k in ("K", "P", "R") and (len(l) > 1 or (s, mid) in fog):
+            if k in ("K", "P", "R", "X") and (len(l) > 1 or (s, mid) in fog):
                 # several pending messages with this session and mid: the first one IN QUEUE ORDER
                 # goes and the trace does not say which that is - from here on nothing is claimed
                 # about the messages with this key
                 fog.add((s, mid))
                 live.pop((s, mid), None)
                 l = []
-            if k in ("K", "P") and l:   # (N is handled by token below)
+            if k == "X" and its:
+                problems.append("coap_delete_node produced %s" % [i[1] for i in its])
+            if k in ("K", "P", "X") and l:   # (N is handled by token below; X: the node is simply deleted)
                 r = l.pop(0)
                 r["out"] = "acked"
                 closed.append(r)
